@@ -464,7 +464,7 @@ def run(tier="quick", seed=0, repo="/repo"):
         run_matrix(rec, rng, label, X, family, tier)
         shapes.add(X.shape)
     return rec.result(RULE, f"n in {sorted({s[0] for s in shapes})}, p in 1..3, every admissible 2-/3-/4-point cut; 3 adapters x "
-                            f"(3 built-in + 3 user-defined costs) x 2-4 parameter kinds; cuts exhaustive, data matrices seeded",
+                            f"(3 built-in + 3 user-defined costs) x 2-4 parameter kinds, built directly, via to_* and (n <= 6) re-configured with set_params(<cost>__param); cuts exhaustive, data matrices seeded",
                       exhaustive=False)
 
 
